@@ -1,0 +1,146 @@
+//go:build verif
+
+// Verification hooks for upstream/host state and selection policies (build tag
+// `verif` only; add-only, no behaviour of the normal build depends on this file).
+//
+// They let a harness outside this package put an Upstream into any
+// availability state (active-health flag, in-flight count, passive failure
+// count and policy, request limit, circuit breaker), read the Host counters
+// back, look at the global hosts pool, and reach the unexported pieces the
+// selection policies are built from (hash, hashCookie, the round-robin
+// counters).
+
+package reverseproxy
+
+import (
+	"sync/atomic"
+	"time"
+)
+
+// VerifNewUpstream returns an Upstream for dial with a fresh private Host
+// (NOT registered in the global hosts pool): healthy, no requests, no limit.
+func VerifNewUpstream(dial string) *Upstream {
+	return &Upstream{Host: new(Host), Dial: dial}
+}
+
+// VerifProvision runs the real Handler.provisionUpstream on u (fillHost through
+// the global hosts pool, circuit breaker, MaxRequests default, passive policy).
+func (h Handler) VerifProvision(u *Upstream) { h.provisionUpstream(u) }
+
+// VerifSetHealthy sets the active-health-check flag (Upstream.unhealthy).
+func (u *Upstream) VerifSetHealthy(healthy bool) {
+	var v int32
+	if !healthy {
+		v = 1
+	}
+	atomic.StoreInt32(&u.unhealthy, v)
+}
+
+// VerifActiveHealthy reads the active-health-check flag.
+func (u *Upstream) VerifActiveHealthy() bool { return u.healthy() }
+
+// VerifSetNumRequests overwrites the Host's in-flight request counter.
+func (u *Upstream) VerifSetNumRequests(n int64) { atomic.StoreInt64(&u.Host.numRequests, n) }
+
+// VerifSetFails overwrites the Host's recent-failures counter.
+func (u *Upstream) VerifSetFails(n int64) { atomic.StoreInt64(&u.Host.fails, n) }
+
+// VerifCountRequest / VerifCountFail call the real counter mutators.
+func (u *Upstream) VerifCountRequest(delta int) error { return u.Host.countRequest(delta) }
+func (u *Upstream) VerifCountFail(delta int) error    { return u.Host.countFail(delta) }
+
+// VerifSetPassive sets the passive health check policy consulted by Healthy()
+// (nil = none).
+func (u *Upstream) VerifSetPassive(p *PassiveHealthChecks) { u.healthCheckPolicy = p }
+
+// VerifPassive returns the passive health check policy of u.
+func (u *Upstream) VerifPassive() *PassiveHealthChecks { return u.healthCheckPolicy }
+
+// VerifSetCircuitBreaker sets the circuit breaker consulted by Healthy()
+// (nil = none).
+func (u *Upstream) VerifSetCircuitBreaker(cb CircuitBreaker) { u.cb = cb }
+
+// VerifBreaker is a settable CircuitBreaker.
+type VerifBreaker struct{ tripped atomic.Bool }
+
+func (b *VerifBreaker) OK() bool                        { return !b.tripped.Load() }
+func (b *VerifBreaker) RecordMetric(int, time.Duration) {}
+func (b *VerifBreaker) Set(ok bool)                     { b.tripped.Store(!ok) }
+
+// VerifHostState is a snapshot of a Host's counters.
+type VerifHostState struct {
+	NumRequests  int64
+	Fails        int64
+	ActivePasses int64
+	ActiveFails  int64
+}
+
+func verifHostState(h *Host) VerifHostState {
+	return VerifHostState{
+		NumRequests:  atomic.LoadInt64(&h.numRequests),
+		Fails:        atomic.LoadInt64(&h.fails),
+		ActivePasses: atomic.LoadInt64(&h.activePasses),
+		ActiveFails:  atomic.LoadInt64(&h.activeFails),
+	}
+}
+
+// VerifHostState returns the counters of u's Host (zero value if u has none).
+func (u *Upstream) VerifHostState() VerifHostState {
+	if u.Host == nil {
+		return VerifHostState{}
+	}
+	return verifHostState(u.Host)
+}
+
+// VerifHostEntry is one entry of the global hosts pool.
+type VerifHostEntry struct {
+	State VerifHostState
+	Refs  int
+	Host  *Host
+}
+
+// VerifHostsSnapshot returns the global hosts pool: key (dial address) →
+// counters, reference count and the Host object itself (for identity checks
+// across reloads).
+func VerifHostsSnapshot() map[string]VerifHostEntry {
+	out := map[string]VerifHostEntry{}
+	var keys []string
+	hs := map[string]*Host{}
+	hosts.Range(func(key, value any) bool {
+		k, ok1 := key.(string)
+		h, ok2 := value.(*Host)
+		if ok1 && ok2 {
+			keys = append(keys, k)
+			hs[k] = h
+		}
+		return true
+	})
+	for _, k := range keys {
+		refs, _ := hosts.References(k)
+		out[k] = VerifHostEntry{State: verifHostState(hs[k]), Refs: refs, Host: hs[k]}
+	}
+	return out
+}
+
+// VerifHash is the hash used by hostByHashing.
+func VerifHash(s string) uint64 { return hash(s) }
+
+// VerifHostByHashing is hostByHashing.
+func VerifHostByHashing(pool []*Upstream, s string) *Upstream { return hostByHashing(pool, s) }
+
+// VerifHashCookie is the HMAC used by the cookie policy.
+func VerifHashCookie(secret, data string) (string, error) { return hashCookie(secret, data) }
+
+// VerifLeastRequests is leastRequests (entries may be nil).
+func VerifLeastRequests(upstreams []*Upstream) *Upstream { return leastRequests(upstreams) }
+
+// VerifCounter / VerifSetCounter access the round-robin position.
+func (r *RoundRobinSelection) VerifCounter() uint32     { return atomic.LoadUint32(&r.robin) }
+func (r *RoundRobinSelection) VerifSetCounter(v uint32) { atomic.StoreUint32(&r.robin, v) }
+
+// VerifCounter / VerifSetCounter access the weighted round-robin position.
+func (r *WeightedRoundRobinSelection) VerifCounter() uint32     { return atomic.LoadUint32(&r.index) }
+func (r *WeightedRoundRobinSelection) VerifSetCounter(v uint32) { atomic.StoreUint32(&r.index, v) }
+
+// VerifTotalWeight returns the total weight computed by Provision.
+func (r *WeightedRoundRobinSelection) VerifTotalWeight() int { return r.totalWeight }
